@@ -191,6 +191,7 @@ type Rig struct {
 	// CommitMu excludes concurrent readers (race-stress query storm) during Commit only, as a node's ABCI connections do.
 	CommitMu sync.RWMutex
 
+	genesisPending bool // a restart from an export has run InitChain; its state is committed with the next block
 	cur        *BlockRecord
 	txIdx      int
 	pendingTag []any
@@ -847,6 +848,7 @@ func (r *Rig) DeliverBlockAt(t time.Time, txs []Tx) *BlockRecord {
 		} else {
 			r.Height = h
 			r.Time = t
+			r.genesisPending = false
 		}
 	}
 	if r.Journal != nil {
@@ -890,14 +892,24 @@ func (r *Rig) finalize(h int64, t time.Time, raw [][]byte) (res *abci.ResponseFi
 
 // Ctx returns a read context on the latest committed state (height/time of the last block).
 func (r *Rig) Ctx() sdk.Context {
-	return r.App.NewUncachedContext(false, cmtproto.Header{ChainID: ChainID, Height: r.Height, Time: r.Time}).
-		WithGasMeter(storetypes.NewInfiniteGasMeter()).WithBlockGasMeter(storetypes.NewInfiniteGasMeter())
+	return r.baseCtx(cmtproto.Header{ChainID: ChainID, Height: r.Height, Time: r.Time})
+}
+
+// baseCtx: a context on the committed state - or, between a restart from an export and the first block of the new
+// application, on the state InitChain has written (it is committed only with that first block).
+func (r *Rig) baseCtx(h cmtproto.Header) sdk.Context {
+	var ctx sdk.Context
+	if r.genesisPending {
+		ctx = r.App.NewContextLegacy(false, h)
+	} else {
+		ctx = r.App.NewUncachedContext(false, h)
+	}
+	return ctx.WithGasMeter(storetypes.NewInfiniteGasMeter()).WithBlockGasMeter(storetypes.NewInfiniteGasMeter())
 }
 
 // WhatIf runs fn on a dropped branch of the committed state at height+1, time+dt.
 func (r *Rig) WhatIf(dt time.Duration, fn func(ctx sdk.Context)) {
-	base := r.App.NewUncachedContext(false, cmtproto.Header{ChainID: ChainID, Height: r.Height + 1, Time: r.Time.Add(dt)}).
-		WithGasMeter(storetypes.NewInfiniteGasMeter()).WithBlockGasMeter(storetypes.NewInfiniteGasMeter())
+	base := r.baseCtx(cmtproto.Header{ChainID: ChainID, Height: r.Height + 1, Time: r.Time.Add(dt)})
 	cctx, _ := base.CacheContext()
 	fn(cctx)
 }
@@ -990,6 +1002,7 @@ func (r *Rig) RestartFromExport() error {
 		r.Height, r.Time, r.GenesisDoc = oldH, oldT, oldDoc
 		return fmt.Errorf("import: %w", err)
 	}
+	r.genesisPending = true
 	r.SyncSeqs()
 	return nil
 }
